@@ -12,6 +12,13 @@ import PyrollModel.Impl
                       (per (function, instance) marks, restored on the normal and on the exceptional path)
     has_set / has_cached / has_set_or_cached   look at the presence state only
     has_value         `hasattr`: a complete read (with its caching side effects); only AttributeError is swallowed
+    explicit callables   an explicit value may be a CALLABLE: `Hook.__get__` finds its number of parameters and calls it
+                      with no argument / with the instance (`World.conv`, read from the source by the translator); the
+                      result is returned, nothing is cached
+    template copies   a fresh object built from a TEMPLATE object (`BaseRollPass.Roll(template, roll_pass)`,
+                      `Unit.Profile(unit, template)`): which attribute sets of the template become the explicit values
+                      of the copy is read from the source by the translator (`copyObj srcs`); the template may have any
+                      history of reads and edits before (`Op`, `applyOps`)
 
   Values stay symbolic (`Expr` over the names of the explicitly supplied members and of the external quantities), so
   the whole evaluation is decidable data the Lean kernel can compute (`decide`).  Everything that lives on OTHER objects
@@ -47,12 +54,21 @@ inductive Res where
   | err (e : Err)
   deriving Repr, DecidableEq, Inhabited
 
+/-- how `Hook.__get__` calls an explicit value that is callable (generated from the source): (the way the number of
+    parameters is determined — only `"inspect.signature"` is modelled: it exists for every kind of callable —,
+    [(number of parameters, number of arguments passed)], number of arguments passed otherwise) -/
+abbrev CallConv := String × List (Nat × Nat) × Nat
+
+/-- `if len(inspect.signature(result).parameters) == 0: result() else: result(instance)` -/
+def CallConv.std : CallConv := ("inspect.signature", [(0, 0)], 1)
+
 /-- one class in one situation -/
 structure World where
   impls : List Impl                 -- generated table of the class (registration = source order)
   mro : List String                 -- host names in MRO order
   hooks : List String               -- names resolved on the instance itself (everything else must be in `ext`)
   ext : List (String × Ext)
+  conv : CallConv := CallConv.std   -- calling convention for callable explicit values
   deriving Repr, DecidableEq, Inhabited
 
 /-- presence state of the instance -/
@@ -62,17 +78,27 @@ structure Obj where
   active : List String              -- keys of the functions currently executing on this instance
   noneSet : List String := []       -- names in `__dict__` holding `None` (`Roll(…, working_velocity=None)`): PRESENT for
                                     -- `has_set`, skipped by `Hook.__get__` (`if result is not None`)
+  callSet : List (String × Nat) := []   -- names in `__dict__` holding a CALLABLE with that many parameters
+                                    -- (`Roll(…, nominal_radius=lambda: 0.16)`, `functools.partial`, an object with `__call__`, …)
+  given : List (String × Expr) := []    -- names in `__dict__` holding a value that is NOT their own symbol: an explicit value
+                                    -- taken over from the `__cache__` of a template object (`copyObj` with a cache source)
   deriving Repr, DecidableEq, Inhabited
 
 def Obj.fresh (set : List String) (noneSet : List String := []) : Obj :=
   { set := set, cache := [], active := [], noneSet := noneSet }
 
-/-- `name in self.__dict__` -/
-def Obj.hasSet (o : Obj) (n : String) : Bool := o.set.contains n || o.noneSet.contains n
-
 def lookup {β : Type} (n : String) : List (String × β) → Option β
   | [] => Option.none
   | (k, v) :: r => if k = n then some v else lookup n r
+
+/-- fresh instance: the names `set` supplied, those of them listed in `calls` as callables (name ↦ number of parameters) -/
+def Obj.freshC (set : List String) (calls : List (String × Nat)) (noneSet : List String := []) : Obj :=
+  { set := set.filter (fun n => (lookup n calls).isNone), cache := [], active := [], noneSet := noneSet,
+    callSet := calls.filter (fun p => set.contains p.1) }
+
+/-- `name in self.__dict__` -/
+def Obj.hasSet (o : Obj) (n : String) : Bool :=
+  o.set.contains n || o.noneSet.contains n || (lookup n o.callSet).isSome || (lookup n o.given).isSome
 
 def glookup (g : Guard) : List (Guard × Bool) → Option Bool
   | [] => Option.none
@@ -190,6 +216,31 @@ def extTest (w : World) (obj attr : String) (wantSet : Bool) (orCached : Bool :=
     | some (.missing e) => if wantSet then .inr false else .inl (.err e)
     | _ => .inl (.err .unmodelled)
 
+def lookupN (k : Nat) : List (Nat × Nat) → Option Nat
+  | [] => Option.none
+  | (a, b) :: r => if a = k then some b else lookupN k r
+
+/-- `Hook.__get__` on an explicit value that is a callable with `params` parameters: the number of arguments follows from the
+    calling convention; a call with the wrong number of arguments is a TypeError; the result is the value the callable
+    stands for (symbol `n`).  A convention other than `inspect.signature` is outside the model. -/
+def callExplicit (c : CallConv) (n : String) (params : Nat) : Res :=
+  if c.1 ≠ "inspect.signature" then .err .unmodelled
+  else if (lookupN params c.2.1).getD c.2.2 = params then .val (.var n) else .err .other
+
+/-- `Hook.__get__` before any hook function is asked: the explicit value (`__dict__`: a number, a callable that is called,
+    a value taken over from a template's cache; a `None` is skipped), then the cached value; `none` = go on with `get_result` -/
+def ownRead (c : CallConv) (o : Obj) (n : String) : Option Res :=
+  if o.set.contains n then some (.val (.var n))
+  else match lookup n o.callSet with
+  | some k => some (callExplicit c n k)
+  | Option.none =>
+    match lookup n o.given with
+    | some e => some (.val e)
+    | Option.none =>
+      match lookup n o.cache with
+      | some e => some (.val e)
+      | Option.none => Option.none
+
 def step (w : World) (m : M) : M :=
   let m := { m with steps := m.steps + 1, maxDepth := max m.maxDepth m.stack.length }
   match m.ctl with
@@ -198,9 +249,8 @@ def step (w : World) (m : M) : M :=
     | some x => { m with ctl := .ret (extRead n x) }
     | Option.none =>
       if !w.hooks.contains n then { m with ctl := .ret (.err .unmodelled) }
-      else if m.obj.set.contains n then { m with ctl := .ret (.val (.var n)) }
-      else match lookup n m.obj.cache with
-        | some e => { m with ctl := .ret (.val e) }
+      else match ownRead w.conv m.obj n with
+        | some r => { m with ctl := .ret r }
         | Option.none => { m with ctl := .chain n (chainOf w n), stack := .getF n :: m.stack }
   | .chain _ [] => { m with ctl := .ret .none }
   | .chain hook (i :: rest) =>
@@ -312,6 +362,11 @@ def scenario (w : World) (fuel : Nat) (sup ord : List String) : List Read × Obj
 def scenarioN (w : World) (fuel : Nat) (sup nones ord : List String) : List Read × Obj :=
   readAll w fuel (Obj.fresh sup nones) ord
 
+/-- … with the supplied names listed in `calls` given as callables (name ↦ number of parameters) -/
+def scenarioC (w : World) (fuel : Nat) (sup : List String) (calls : List (String × Nat)) (ord : List String) :
+    List Read × Obj :=
+  readAll w fuel (Obj.freshC sup calls) ord
+
 /-! ### enumeration helpers (used INSIDE the theorems: all subsets × all read orders) -/
 
 def sublists : List String → List (List String)
@@ -401,6 +456,156 @@ def sameRun (w : World) (fuel : Nat) (base sup : List String) (h : String) (ord 
 def checkNone (members : List String) (fuel : Nat) (worlds : List GW) (hs : List String) : Bool :=
   worlds.all fun g => hs.all fun h => (sublists (members.filter (· ≠ h))).all fun sup =>
     (perms members).all fun ord => sameRun g.world fuel g.base sup h ord
+
+/-! ### a member supplied as a callable is supplied
+
+  `Hook.__get__` calls an explicit value that is callable — without argument when it has no parameter, with the instance
+  otherwise — and returns the result: an object whose supplied members (and other explicit values, `g.base`) are given as
+  callables of 0 or 1 parameters must answer every read exactly as the object that carries the numbers.  `checkForms`
+  compares, for every world × every subset of supplied members × every subset of the explicit names given as callables ×
+  three patterns of parameter counts (all 0, all 1, alternating) × every read order, the complete results of the two runs. -/
+
+def arities (pat : Nat) : Nat → List String → List (String × Nat)
+  | _, [] => []
+  | i, n :: r => (n, if pat = 2 then i % 2 else pat) :: arities pat (i + 1) r
+
+def sameRunC (w : World) (fuel : Nat) (set : List String) (calls : List (String × Nat)) (ord : List String) : Bool :=
+  let a := scenarioC w fuel set calls ord
+  let b := scenario w fuel set ord
+  a.1.map (·.res) == b.1.map (·.res) && a.1.all (fun r => r.res != .err .fuel) && b.1.all (fun r => r.res != .err .fuel)
+    && a.2.active.isEmpty && a.1.map (·.name) == ord && a.2.cache == b.2.cache
+
+def checkForms (members : List String) (fuel : Nat) (worlds : List GW) : Bool :=
+  worlds.all fun g => (sublists members).all fun sup => (sublists (g.base ++ sup)).all fun cs =>
+    [0, 1, 2].all fun pat => (perms members).all fun ord =>
+      sameRunC g.world fuel (g.base ++ sup) (arities pat 0 cs) ord
+
+/-! ### template objects: history of reads and edits, then the copy
+
+  A fresh object may be built from a TEMPLATE object (the roll of a pass from the `Roll` handed to the pass, the in or out profile of
+  a unit from the profile handed on).  The copy must behave as a fresh object given the template's EXPLICIT values —
+  whatever was read on the template (and thereby cached) or edited before.  `Op` = what may happen to the template;
+  `copyObj srcs` = the copy site (which attribute sets of the template are taken over as explicit values, in `dict | …`
+  order, later sources overriding earlier ones: read from the source by the translator). -/
+
+inductive Op where
+  | read (n : String)        -- `getattr(t, n)` (result ignored: the value is cached, or the read fails)
+  | supply (n : String)      -- `t.n = <new value>`
+  | unsupply (n : String)    -- `del t.n`
+  | supplyNone (n : String)  -- `t.n = None`
+  deriving Repr, DecidableEq, Inhabited
+
+/-- what was derived from the value `n` held so far refers to the OLD value once `n` is re-supplied / deleted -/
+def oldName (n : String) : String := n ++ "@old"
+
+def Obj.forget (o : Obj) (n : String) : Obj :=
+  { o with set := o.set.filter (· ≠ n), noneSet := o.noneSet.filter (· ≠ n), callSet := o.callSet.filter (·.1 ≠ n),
+           given := (o.given.filter (·.1 ≠ n)).map (fun p => (p.1, subst [(n, .var (oldName n))] p.2)),
+           cache := o.cache.map (fun p => (p.1, subst [(n, .var (oldName n))] p.2)) }
+
+def applyOp (w : World) (fuel : Nat) (o : Obj) : Op → Obj
+  | .read n => (read1 w fuel o n).2
+  | .supply n => let o' := o.forget n; { o' with set := n :: o'.set }
+  | .unsupply n => o.forget n
+  | .supplyNone n => let o' := o.forget n; { o' with noneSet := n :: o'.noneSet }
+
+/-- the operations one after the other; the results of the reads are kept (the correspondence harness compares them) -/
+def applyOpsR (w : World) (fuel : Nat) : Obj → List Op → List Read × Obj
+  | o, [] => ([], o)
+  | o, .read n :: r =>
+    let (x, o') := read1 w fuel o n
+    let (xs, o'') := applyOpsR w fuel o' r
+    (x :: xs, o'')
+  | o, op :: r => applyOpsR w fuel (applyOp w fuel o op) r
+
+def applyOps (w : World) (fuel : Nat) (o : Obj) (ops : List Op) : Obj := (applyOpsR w fuel o ops).2
+
+/-- the names in `__dict__` after the edits (reads change nothing there) -/
+def editSet : List String → List Op → List String
+  | s, [] => s
+  | s, .read _ :: r => editSet s r
+  | s, .supply n :: r => editSet (n :: s.filter (· ≠ n)) r
+  | s, .unsupply n :: r => editSet (s.filter (· ≠ n)) r
+  | s, .supplyNone n :: r => editSet (s.filter (· ≠ n)) r
+
+/-- one entry of the keyword dictionary a copy site builds -/
+inductive Entry where
+  | own                 -- the template's explicit value (symbol = the name)
+  | noneV               -- `None`
+  | call (k : Nat)      -- a callable
+  | expr (e : Expr)     -- a value computed earlier (from the template's `__cache__`, or taken over by the template itself)
+  deriving Repr, DecidableEq, Inhabited
+
+def Obj.dictEntries (o : Obj) : List (String × Entry) :=
+  o.set.map (fun n => (n, Entry.own)) ++ o.noneSet.map (fun n => (n, Entry.noneV)) ++
+  o.callSet.map (fun p => (p.1, Entry.call p.2)) ++ o.given.map (fun p => (p.1, Entry.expr p.2))
+
+def Obj.cacheEntries (o : Obj) : List (String × Entry) := o.cache.map (fun p => (p.1, Entry.expr p.2))
+
+/-- python's `a | b` on dictionaries -/
+def mergeDict (a b : List (String × Entry)) : List (String × Entry) :=
+  a.filter (fun p => (lookup p.1 b).isNone) ++ b
+
+/-- the keyword dictionary `src₁ | src₂ | …`: `"dict"` = the public part of `template.__dict__`, `"cache"` =
+    `template.__cache__`; anything else is outside the model -/
+def copyDict (o : Obj) : List String → List (String × Entry) → Option (List (String × Entry))
+  | [], acc => some acc
+  | src :: r, acc =>
+    if src = "dict" then copyDict o r (mergeDict acc o.dictEntries)
+    else if src = "cache" then copyDict o r (mergeDict acc o.cacheEntries)
+    else Option.none
+
+def Obj.ofEntries (d : List (String × Entry)) : Obj :=
+  { set := d.filterMap (fun p => match p.2 with | .own => some p.1 | _ => Option.none),
+    noneSet := d.filterMap (fun p => match p.2 with | .noneV => some p.1 | _ => Option.none),
+    callSet := d.filterMap (fun p => match p.2 with | .call k => some (p.1, k) | _ => Option.none),
+    given := d.filterMap (fun p => match p.2 with | .expr e => some (p.1, e) | _ => Option.none),
+    cache := [], active := [] }
+
+/-- the object a copy site builds from the template `o`: `cls(**kwargs)` — a NEW object (empty `__cache__`, no marks)
+    whose `__dict__` holds the keyword dictionary.  `srcs` lists the sources in the order of a `a | b | …` expression. -/
+def copyObj (srcs : List String) (o : Obj) : Option Obj :=
+  (copyDict o srcs []).map Obj.ofEntries
+
+/-- the fresh object "given the template's explicit values": same `__dict__`, nothing cached, no marks -/
+def Obj.explicitOnly (o : Obj) : Obj := { o with cache := [], active := [] }
+
+/-- all read histories over `members`: every subset read in the listed order, and all members in every order -/
+def histories (members : List String) : List (List String) :=
+  sublists members ++ perms members
+
+/-- the edit that turns the supplied set `sup0` into `sup`: what is no longer supplied is deleted, every supplied member
+    is (re-)supplied with its new value -/
+def editOps (sup0 sup : List String) : List Op :=
+  (sup0.filter (fun n => !sup.contains n)).map Op.unsupply ++ sup.map Op.supply
+
+/-- template world `tw` with `tbase` explicitly set besides the members, copy world `cw` -/
+structure CopyW where
+  tw : World
+  tbase : List String
+  cw : World
+  deriving Repr, DecidableEq, Inhabited
+
+/-- ONE template history: fresh template with `sup0` supplied, the members `h` read, edited to `sup`, optionally read
+    again (`h2`), copied; the members read in order `ord` on the copy give exactly the results (values symbolically, error
+    kinds, steps, depth, number of hook function invocations) and the final state of the fresh object given `tbase ++ sup` -/
+def copyRunOk (srcs : List String) (fuel : Nat) (c : CopyW) (sup0 h sup h2 ord : List String) : Bool :=
+  let ops := h.map Op.read ++ editOps sup0 sup ++ h2.map Op.read
+  let t := applyOps c.tw fuel (Obj.fresh (c.tbase ++ sup0)) ops
+  match copyObj srcs t with
+  | Option.none => false
+  | some o =>
+    let a := readAll c.cw fuel o ord
+    let b := scenario c.cw fuel (editSet (c.tbase ++ sup0) ops) ord
+    a.1 == b.1 && a.2.cache == b.2.cache && a.2.active.isEmpty && a.1.all (fun r => r.res != .err .fuel)
+      && a.1.map (·.name) == ord
+
+/-- EVERY pair of worlds × EVERY initially supplied subset × EVERY read history × EVERY finally supplied subset × reads after
+    the edit (none / all members) × EVERY read order on the copy -/
+def checkCopy (srcs : List String) (members : List String) (fuel : Nat) (cs : List CopyW) : Bool :=
+  cs.all fun c => (sublists members).all fun sup0 => (histories members).all fun h =>
+    (sublists members).all fun sup => [[], members].all fun h2 => (perms members).all fun ord =>
+      copyRunOk srcs fuel c sup0 h sup h2 ord
 
 def dedupE : List Expr → List Expr
   | [] => []
